@@ -9,6 +9,12 @@ import (
 
 // replayers maps a property id to the function that re-executes a saved scenario of that
 // property without rapid (same executor, same oracle).
+func init() {
+	for k, v := range extraReplayers {
+		replayers[k] = v
+	}
+}
+
 var replayers = map[string]func(t *testing.T, path string){
 	"C01":         func(t *testing.T, p string) { core.Replay(t, propC01, p) },
 	"C02":         func(t *testing.T, p string) { core.Replay(t, propC02, p) },
